@@ -373,13 +373,13 @@ def run(prop, tier, seed, t0):
         return plan.fail_build(prop, failed)
     cb = plan.dispatch_variants(bins)
     tasks = []
+    # the documented switches (190, 500, 800) from both sides, plus sizes drawn from the seed in every range
+    import random as _r
+    rs = _r.Random(seed * 104729 + 5)
+    drawn = [(rs.randrange(9, 64), rs.randrange(65, 189)), (rs.randrange(192, 499),), (rs.randrange(502, 799),), (rs.randrange(802, 1100),)]
     if tier == 'quick':
         tasks += plan.spread_tasks('vlib.props.c04', 'task', prop, seed, 96, cb, ntasks=8)
         tasks.append(('vlib.props.c04', 'task_digits', prop, seed * 1000 + 50, 0, cb, {}))
-        # the documented switches (190, 500, 800) from both sides, plus sizes drawn from the seed in every range
-        import random as _r
-        rs = _r.Random(seed * 104729 + 5)
-        drawn = [(rs.randrange(9, 64), rs.randrange(65, 189)), (rs.randrange(192, 499),), (rs.randrange(502, 799),), (rs.randrange(802, 1100),)]
         for i, bigs in enumerate([(189, 190), (191, 500), (499, 800), (501, 799), (801,), (1000,)] + drawn):
             tasks.append(('vlib.props.c04', 'task', prop, seed * 1000 + 60 + i, 0, cb, {'big': bigs}))
     else:
@@ -387,7 +387,7 @@ def run(prop, tier, seed, t0):
         for i in range(4):
             tasks.append(('vlib.props.c04', 'task_digits', prop, seed * 1000 + 500 + i, 0, cb, {}))
         for i, bigs in enumerate([(189,), (190,), (191,), (499,), (500,), (501,), (799,), (800,), (801,), (1000,), (250, 400),
-                                  (189, 190, 191), (200, 300), (600,), (900,), (1200,)]):
+                                  (189, 190, 191), (200, 300), (600,), (900,), (1200,)] + drawn):
             tasks.append(('vlib.props.c04', 'task', prop, seed * 1000 + 600 + i, 0, cb, {'big': bigs}))
     m = core.run_tasks(tasks)
     return core.finish(prop, tier, seed, t0, m,
